@@ -519,7 +519,7 @@ def gen_ctor(ctx, spec, count):
 
 
 # ----------------------------------------------------------------------------- translator tie
-BODY_FILES = ("Model.lean", "Table.lean", "Lift.lean", "Full.lean", "Find.lean")
+BODY_FILES = ("Model.lean", "Table.lean", "Lift.lean", "Full.lean", "Find.lean", "Reach.lean", "Stationary.lean")
 
 
 def body_of(path):
@@ -715,8 +715,8 @@ def run(ctx):
         c.setdefault("src", "corpus")
     cases += list(gen_exhaustive(tier))
     cases += list(gen_exhaustive2(tier))
-    cases += list(gen_random(ctx, spec, 4000 if tier == "quick" else 60000))
-    ts_cases = list(gen_ts(ctx, 1500 if tier == "quick" else 20000))
+    cases += list(gen_random(ctx, spec, 3000 if tier == "quick" else 60000))
+    ts_cases = list(gen_ts(ctx, 1200 if tier == "quick" else 20000))
     ctor_cases += list(gen_ctor(ctx, spec, 600 if tier == "quick" else 8000))
 
     # ---- histories with a model
